@@ -1,5 +1,7 @@
 import Crusta.Proofs.Prog
 import Crusta.Model.Solvers
+import Crusta.Model.Dyn
+import Crusta.Model.DynAtt
 
 /-!
 # C17 — a failing SAT backend never turns into an answer (property theorems)
@@ -35,6 +37,28 @@ theorem any_program {α : Type} (p : Prog α) (pre post : List Reply) (w : World
     (h : ∃ w1, interp p pre w = (.starved, w1)) :
     ∃ w2, interp p (pre ++ Reply.unknown :: post) w = (.abort, w2) :=
   unknown_aborts p pre post w h
+
+/-- the dynamic solvers (argument-indexed, all three semantics): an `unknown` reply at the call a
+query has reached aborts that query — whatever the state the update history left behind -/
+theorem dynamic_query_unknown_aborts (fuel : Nat) (d : Dyn.DState) (q : Dyn.DQuery) (l : Nat)
+    (pre post : List Reply) (w : World)
+    (h : ∃ w1, interp (Dyn.query fuel d q l) pre w = (.starved, w1)) :
+    ∃ w2, interp (Dyn.query fuel d q l) (pre ++ Reply.unknown :: post) w = (.abort, w2) :=
+  unknown_aborts _ pre post w h
+
+/-- the attack-assumption dynamic solvers -/
+theorem dynamic_attacks_query_unknown_aborts (d : DynAtt.ADState) (q : Dyn.DQuery) (l : Nat)
+    (pre post : List Reply) (w : World)
+    (h : ∃ w1, interp (DynAtt.query d q l) pre w = (.starved, w1)) :
+    ∃ w2, interp (DynAtt.query d q l) (pre ++ Reply.unknown :: post) w = (.abort, w2) :=
+  unknown_aborts _ pre post w h
+
+/-- and a dynamic query that did return consumed no `unknown` reply -/
+theorem dynamic_answer_implies_no_unknown (fuel : Nat) (d : Dyn.DState) (q : Dyn.DQuery) (l : Nat)
+    (rs : List Reply) (w w' : World) (a : Dyn.DState × AccAns)
+    (h : interp (Dyn.query fuel d q l) rs w = (.done a, w')) :
+    w'.calls - w.calls ≤ rs.length ∧ Reply.unknown ∉ rs.take (w'.calls - w.calls) :=
+  done_consumed_no_unknown _ rs w w' a h
 
 /-- non-vacuity: the stable single-extension program on a one-argument framework asks for a reply -/
 example : ∃ p, entryProg .ST ⟨.stb, 10⟩ (AF.view ⟨1, []⟩) .se = some p := ⟨_, rfl⟩
